@@ -1,4 +1,5 @@
 import PyGam.Proofs.Search
+import PyGam.Gen.Decisions
 /-!
 # C10 — gridsearch evaluates exactly the requested candidates and keeps the minimiser
 
@@ -516,5 +517,35 @@ theorem score_independent_partial [LinearOrder α] (inf : α) (selfScore : Optio
       simp at hmap
       obtain ⟨rfl, rfl⟩ := hmap
       exact (List.mem_zipIdx_iff_getElem?.mp hk)
+
+/-! ### tie to the source by translation of the decision logic (`gen_decision_*`)
+
+`Gen/Decisions.lean` is regenerated on every run from the abstract syntax tree of `pygam/pygam.py`:
+`Gen.gridsearch_objective` is the first run of `if` statements of `GAM.gridsearch` that mention `objective` ("validate
+objective", "check objective"), as a function of `distribution._known_scale` and of the objective name; `raise X(…)` is
+`.error "X"`. -/
+section gen_decisions
+/-- the objective names of the source (`other`: any string outside the admissible list) -/
+def objName : Objective → String
+  | .auto => "auto" | .GCV => "GCV" | .UBRE => "UBRE" | .AIC => "AIC" | .AICc => "AICc" | .other => "<any other value>"
+
+/-- the objective logic of the source is `resolveObjective`: `'auto'` ↦ `'UBRE'` with a known scale and `'GCV'` without,
+`'GCV'` with a known scale and `'UBRE'` without are rejected, `'AIC'` / `'AICc'` pass, every rejection is a `ValueError` -/
+theorem gen_decision_objective (known : Bool) (o : Objective) :
+    Gen.gridsearch_objective known (objName o)
+      = match resolveObjective known o with
+        | .ok o' => .ok (objName o')
+        | .error e => .error e.pyClass := by
+  cases known <;> cases o <;> rfl
+
+/-- every name outside `['auto', 'GCV', 'UBRE', 'AIC', 'AICc']` is rejected with `ValueError` (the model's `.other`) -/
+theorem gen_decision_objective_other (known : Bool) (s : String) (hs : s ∉ ["auto", "GCV", "UBRE", "AIC", "AICc"]) :
+    Gen.gridsearch_objective known s = .error "ValueError"
+      ∧ resolveObjective known .other = .error .badObjective := by
+  refine ⟨?_, rfl⟩
+  unfold Gen.gridsearch_objective
+  rw [if_pos hs]
+
+end gen_decisions
 
 end PyGam.C10
